@@ -127,7 +127,7 @@ def duration_parts(out, lang):
                 if best is None or cand[0] > best[0] or (cand[0] == best[0] and one):
                     best = cand
         if best is None:
-            return "unparsed"
+            return [[-1, "unparsed", "many"]]
         end, unit, one, n = best
         cls = "one" if one else "many"
         if unit not in with_one and n == 1:
@@ -141,5 +141,48 @@ def time_printed(out):
     """'HH:MM:SS NAME' -> [wall second of day, name] or 'unparsed'"""
     m = re.match(r"^(\d\d):(\d\d):(\d\d) (\S+)$", out.strip())
     if not m:
-        return "unparsed"
+        return [-1, "unparsed"]
     return [int(m.group(1)) * 3600 + int(m.group(2)) * 60 + int(m.group(3)), m.group(4)]
+
+
+_date_fmt = {}
+
+
+def date_printed(out, lang):
+    """printed date -> [day, month, year or 0] with the language's own formats and month names, else 'unparsed'"""
+    langs = config_json()["languages"]
+    ld = langs.get(lang, langs["en"])
+    if lang not in _date_fmt:
+        fm = ld.get("format", {}).get("date", {})
+        pats = []
+        for key in ("full_date", "current_year"):
+            f = fm.get(key)
+            if not f:
+                continue
+            rx = re.escape(f)
+            fields = re.findall(r"\\\{([a-z_]+)\\\}", rx)
+            rx = re.sub(r"\\\{(day|year|day_pad)\\\}", r"(-?\\d+)", rx)
+            rx = re.sub(r"\\\{(month_long|month_short)\\\}", r"(\\S+)", rx)
+            pats.append((re.compile("^" + rx + "$"), fields))
+        _date_fmt[lang] = pats
+    for rx, fields in _date_fmt[lang]:
+        m = rx.match(out.strip())
+        if not m:
+            continue
+        vals = dict(zip(fields, m.groups()))
+        mon = None
+        for key, table in (("month_long", "long_months"), ("month_short", "short_months")):
+            if key in vals:
+                mon = ld.get(table, {}).get(vals[key].lower())
+                if mon is None:
+                    # Rust's uppercase_first_letter on a non-ASCII first letter: compare case-insensitively
+                    for n, k in ld.get(table, {}).items():
+                        if n.lower() == vals[key].lower() or n.upper() == vals[key].upper():
+                            mon = k
+        if mon is None:
+            continue
+        try:
+            return [int(vals.get("day", vals.get("day_pad"))), mon, int(vals["year"]) if "year" in vals else 0]
+        except Exception:
+            continue
+    return [-1, -1, -1]
